@@ -197,6 +197,13 @@ def check(case, stats=None):
                     out.append(Failure("C18:text-to-int" if tag == "full" else "C18:text-to-int-batch-dependent",
                                        {"batch": tag, "text": sub[j], "value": got[j]}))
                     break
+                if tag == "full":
+                    # the same array object parsed a second time (the first parse must not have touched the text it was given)
+                    arr = _arr(sub)
+                    once, twice = fn(arr).tolist(), fn(arr).tolist()
+                    if once != want or twice != want or arr.tolist() != sub:
+                        out.append(Failure("C18:text-to-int-second-parse-of-the-same-array", {"texts": sub[:12], "first": once[:12], "second": twice[:12], "text_afterwards": arr.tolist()[:12]}))
+                        break
                 if tag != "full" and all(len(t) for t in texts):
                     # the same sub-batch taken by indexing the full array (a view that has not been flattened)
                     got = fn(_arr(texts)[np.array(idx, dtype=int)]).tolist()
@@ -246,6 +253,15 @@ def check(case, stats=None):
                     break
                 if tag == "full":
                     ref = [bits(x) for x in got.tolist()]
+                    # the same array object parsed a second time, then a reordered selection of it
+                    arr = _arr(sub)
+                    strops.str_to_float(arr)
+                    again = [bits(x) for x in strops.str_to_float(arr).tolist()]
+                    rev = [bits(x) for x in strops.str_to_float(arr[::-1]).tolist()][::-1] if len(sub) > 1 and all(len(t) for t in sub) else again
+                    if again != ref or rev != ref or arr.tolist() != sub:
+                        out.append(Failure("C18:text-to-float-second-parse-of-the-same-array", {"texts": sub[:12], "text_afterwards": arr.tolist()[:12],
+                                                                                                 "first": got.tolist()[:12], "second": strops.str_to_float(_arr(arr.tolist())).tolist()[:12]}))
+                        break
                 else:
                     mine = [bits(x) for x in got.tolist()]
                     for pos, i in enumerate(idx):
